@@ -5,7 +5,26 @@ import json, subprocess, sys, os
 ROOT = os.path.dirname(os.path.dirname(os.path.abspath(__file__)))
 
 # id -> (category, technique, level text, level note, design ref) ; only properties whose check is built
+TB = "the Go toolchain and runtime; internal/mon (verdict bookkeeping); the ./check driver building /repo's working tree with -tags verif"
 CHECKS = {
+ "C01": ("exploration", "runtime round-trip monitor over generated frames (exhaustive shape enumeration + PRNG values)",
+  "Every optional-field shape of every (message kind, version) is enumerated exhaustively and each is encoded and decoded by the real codec under {none, LZ4, Snappy}; the decoded object is read back into an abstract normal form and compared with the generated frame. Holds on the executions observed; values are sampled, shapes are complete.",
+  "Trusts internal/bridge (what a library object denotes, normal form N1-N9) and the generator's version gates (internal/ref, from the spec files). " + TB, "DESIGN.md §4 C01"),
+ "C02": ("exploration", "differential monitor against an independent codec written from the spec files; exhaustive 2^16 header table",
+  "The library's bytes for every generated frame are parsed by an independent strict decoder written from /repo/specs, and bytes produced by an independent encoder are fed to the library; all 65536 (version byte, opcode) headers are tried and must be accepted iff the specs define them. Catches symmetric deviations a round trip cannot see.",
+  "Trusted base: my reading of the six spec files (internal/ref), quoted next to each feature gate. " + TB, "DESIGN.md §4 C02"),
+ "C13": ("exploration", "runtime monitor with an arbitrary-precision (math/big) judge over all (CQL numeric type, Go type) pairs",
+  "Every (CQL numeric type, Go numeric/string type) pair in both directions is driven with every type boundary +-1 and PRNG values of all magnitudes through the real codecs; a result is accepted only if it is an error or exactly the mathematical value.",
+  "Reference (de)serializers of the fixed-width/varint/vint formats written from spec section 5/6 in cmd/c13; value pools are sampled, pairs are complete. " + TB, "DESIGN.md §4 C13"),
+ "C14": ("exploration", "runtime monitor of nil/NULL handling over every codec x accepted representation x element position",
+  "Every codec is driven with every nil-able source and null input into every accepted destination (acceptance decided by observation), and containers with a null at every element position are round-tripped and inspected with an own wire walker; v2 collections must refuse nulls.",
+  "Acceptance of a representation is observed, not assumed; nesting depth and width are bounded. " + TB, "DESIGN.md §4 C14"),
+ "C17": ("exploration", "runtime heap-aliasing monitor: reflective disjointness of reachable mutable memory + mutate-and-observe",
+  "Every type with a deep-copy operation (enumerated from source at run time and cross-checked with a static registry) is populated in every field, copied through every copy method, and the copy is checked for equality, for disjointness of all reachable mutable memory, and by mutating every reachable location and re-dumping the other side. A canary (identity and shallow copies) must be flagged on every run.",
+  "Populated instances are PRNG-drawn; a type missing from the registry is reported inconclusive. " + TB, "DESIGN.md §4 C17"),
+ "C19": ("exploration", "runtime enumeration of constants parsed from source vs the library's predicates over whole code domains",
+  "Constants are parsed from primitive/constants.go at run time; declared values must be accepted and named, every undeclared value of the 8/16-bit domains (exhaustively) and of the 32-bit domains (stratified in quick, all 2^32 for IsValid in thorough) must be rejected; opcode classification, codec arms and a capability table transcribed from the specs are compared for every (version, argument) pair.",
+  "Capability table transcribed by hand from the spec texts (6 ambiguous cells unjudged). Check* functions are not swept exhaustively over 2^32 (too slow), IsValid is. " + TB, "DESIGN.md §4 C19"),
 }
 
 PENDING_REASON = "check not built yet in this session (see DESIGN.md section 4); not claimed until its quick command exists and is silent on the unchanged tree"
